@@ -403,7 +403,95 @@ impl Api for Fq {
 /// Resolve `SeekRec(j)` targets: (line, byte) per model item, supplied by the caller.
 pub type SeekTargets = Vec<Option<(u64, u64)>>;
 
+pub const PATH_PROFILE: &str = "from_path";
+
+/// Readers constructed from a file path (`from_path`, `from_path_with_capacity`): the input is
+/// written to a scratch file, read with next() until the end was seen twice; the policy seam is
+/// still ours (set_policy), the byte source is the real file.
+fn drive_path(scn: &ReadScn, cfg: &Cfg) -> RunLog {
+    use std::sync::atomic::{AtomicU64, Ordering};
+    static COUNTER: AtomicU64 = AtomicU64::new(0);
+    let seam = new_seam(0);
+    let mut log = RunLog::default();
+    let path = std::env::temp_dir().join(format!("sim-io-{}-{}.tmp", std::process::id(), COUNTER.fetch_add(1, Ordering::Relaxed)));
+    if std::fs::write(&path, &scn.input).is_err() {
+        return log;
+    }
+    let with_cap = cfg.cap != 65536;
+    let pol = SimPolicy::new(cfg.policy.clone(), seam.clone());
+    let mut ctx = MonCtx::new(&scn.mon, 1);
+    macro_rules! run {
+        ($module:ident, $obs:ident, $err:ident) => {{
+            let opened = vcore::catch(|| {
+                if with_cap {
+                    $module::Reader::from_path_with_capacity(&path, cfg.cap.max(3))
+                } else {
+                    $module::Reader::from_path(&path)
+                }
+            });
+            match opened {
+                Err(p) => {
+                    log.steps.push(Step { op: Op::Next, out: classify_panic(format!("while opening the file: {}", p)), pos: None, target: None, restarted: None, seam: OpSeam::default(), calls_from: 0, calls_to: 0, mon: vec![], slots_changed: vec![] });
+                    log.aborted = true;
+                }
+                Ok(Err(_)) => {}
+                Ok(Ok(rd)) => {
+                    let mut rd = rd.set_policy(pol);
+                    for op in &scn.ops {
+                        if !matches!(op, Op::Next) {
+                            continue;
+                        }
+                        seam.borrow_mut().begin_op();
+                        let res = vcore::catch(|| match rd.next() {
+                            None => Out::End,
+                            Some(Err(e)) => {
+                                let (o, m) = $err(e);
+                                Out::Err(o, m)
+                            }
+                            Some(Ok(r)) => Out::Rec($obs(&r)),
+                        });
+                        let out = match res {
+                            Ok(o) => o,
+                            Err(p) => classify_panic(p),
+                        };
+                        let aborted = matches!(out, Out::Panic(_) | Out::Hang(_));
+                        let pos = if aborted { None } else { path_pos!($module, rd) };
+                        log.out_hash = vcore::mix(log.out_hash, hash_out(&out));
+                        log.steps.push(Step { op: Op::Next, out, pos, target: None, restarted: None, seam: seam.borrow().op.clone(), calls_from: 0, calls_to: 0, mon: std::mem::take(&mut ctx.found), slots_changed: vec![] });
+                        if aborted {
+                            log.aborted = true;
+                            break;
+                        }
+                    }
+                }
+            }
+        }};
+    }
+    macro_rules! path_pos {
+        (fasta, $rd:expr) => {
+            $rd.position().map(|p| (p.line(), p.byte()))
+        };
+        (fastq, $rd:expr) => {{
+            let p = $rd.position();
+            Some((p.line(), p.byte()))
+        }};
+    }
+    match scn.fmt {
+        Fmt::Fasta => run!(fasta, fa_obs, fa_err),
+        Fmt::Fastq => run!(fastq, fq_obs, fq_err),
+    }
+    let _ = std::fs::remove_file(&path);
+    let s = seam.borrow();
+    log.all_grows = s.all_grows.clone();
+    log.total_steps = s.total_steps;
+    log.log_hash = vcore::mix(s.hash, log.out_hash);
+    log
+}
+
 pub fn drive(scn: &ReadScn, cfg: &Cfg, targets: &SeekTargets) -> RunLog {
+    if scn.profile == PATH_PROFILE {
+        return drive_path(scn, cfg);
+    }
     match scn.fmt {
         Fmt::Fasta => drive_api::<Fa>(scn, cfg, targets),
         Fmt::Fastq => drive_api::<Fq>(scn, cfg, targets),
